@@ -1,3 +1,5 @@
+#[cfg(mos_verif_threads)]
+use mos_simrt::std_shim as std;
 use crate::errors::{map_io_error, CoreResult};
 use codespan_reporting::diagnostic::Diagnostic;
 use std::collections::HashMap;
